@@ -56,7 +56,11 @@ Record keypair := {
   k_filter : sstate     (* replay filter, as its specification (C05: the ring refines it) *)
 }.
 
-Record peer := { k_prev : option keypair; k_cur : option keypair }.
+(* keypairs.previous / current / next (next = responder's key, not yet confirmed by the remote) *)
+Record peer := { k_prev : option keypair; k_cur : option keypair; k_next : option keypair }.
+Inductive slot := SPrev | SCur | SNext.
+Definition get_slot (p : peer) (s : slot) : option keypair :=
+  match s with SPrev => k_prev p | SCur => k_cur p | SNext => k_next p end.
 
 Record state := { s_tbl : list entry; s_peers : list peer }.
 
@@ -66,6 +70,8 @@ Inductive dgram :=
 
 Inductive event :=
 | Handshake (p idx key : N)    (* remote initiates, device answers with local index idx, remote confirms with a keepalive (counter 0) *)
+| HandshakeUnconf (p idx key : N)   (* the same without the confirmation: the key stays in the next slot *)
+| Restart                      (* device.Down(); device.Up(): every peer is stopped (ZeroAndFlushAll) and started again *)
 | Age (p ns : N)               (* creation time of all keypairs of p moved ns into the past *)
 | Dgrams (l : list dgram).     (* datagrams delivered in this order *)
 
@@ -79,17 +85,21 @@ Definition slot_hit (idx : N) (k : option keypair) : option keypair :=
   | None => None
   end.
 
-(* device.indexTable.Lookup(receiver): (peer position, true = current slot, keypair) *)
-Fixpoint find_idx (ps : list peer) (idx : N) (i : N) : option (N * bool * keypair) :=
+(* device.indexTable.Lookup(receiver): (peer position, slot, keypair) *)
+Fixpoint find_idx (ps : list peer) (idx : N) (i : N) : option (N * slot * keypair) :=
   match ps with
   | [] => None
   | p :: t =>
       match slot_hit idx (k_cur p) with
-      | Some k => Some (i, true, k)
+      | Some k => Some (i, SCur, k)
       | None =>
           match slot_hit idx (k_prev p) with
-          | Some k => Some (i, false, k)
-          | None => find_idx t idx (i + 1)
+          | Some k => Some (i, SPrev, k)
+          | None =>
+              match slot_hit idx (k_next p) with
+              | Some k => Some (i, SNext, k)
+              | None => find_idx t idx (i + 1)
+              end
           end
       end
   end.
@@ -97,10 +107,17 @@ Fixpoint find_idx (ps : list peer) (idx : N) (i : N) : option (N * bool * keypai
 Definition set_filter (k : keypair) (f : sstate) : keypair :=
   {| k_idx := k_idx k; k_key := k_key k; k_age := k_age k; k_filter := f |}.
 
-Definition upd_slot (ps : list peer) (i : N) (cur : bool) (k : keypair) : list peer :=
+(* the keypair (with its updated replay filter) goes back into its slot; a message under the
+   next key confirms it: ReceivedWithKeypair: previous := current; current := next; next := nil
+   (the old previous leaves the index table) *)
+Definition upd_slot (ps : list peer) (i : N) (sl : slot) (k : keypair) : list peer :=
   match nth_error ps (N.to_nat i) with
   | Some p => set_nth ps (N.to_nat i)
-                (if cur then {| k_prev := k_prev p; k_cur := Some k |} else {| k_prev := Some k; k_cur := k_cur p |})
+                (match sl with
+                 | SCur => {| k_prev := k_prev p; k_cur := Some k; k_next := k_next p |}
+                 | SPrev => {| k_prev := Some k; k_cur := k_cur p; k_next := k_next p |}
+                 | SNext => {| k_prev := k_cur p; k_cur := Some k; k_next := None |}
+                 end)
   | None => ps
   end.
 
@@ -158,17 +175,29 @@ Definition step (st : state) (ev : event) : state * list res :=
       ({| s_tbl := s_tbl st;
           s_peers := match nth_error (s_peers st) (N.to_nat p) with
                      | Some x => set_nth (s_peers st) (N.to_nat p)
-                                   {| k_prev := age_kp ns (k_prev x); k_cur := age_kp ns (k_cur x) |}
+                                   {| k_prev := age_kp ns (k_prev x); k_cur := age_kp ns (k_cur x); k_next := age_kp ns (k_next x) |}
                      | None => s_peers st
                      end |}, [])
   | Handshake p idx key =>
-      (* BeginSymmetricSession (responder): next := new, previous := nil;
-         ReceivedWithKeypair on the confirmation: previous := current, current := next *)
+      (* BeginSymmetricSession (responder): next := new (an older next is deleted), previous := nil;
+         ReceivedWithKeypair on the confirmation: previous := current, current := next, next := nil *)
       ({| s_tbl := s_tbl st;
           s_peers := match nth_error (s_peers st) (N.to_nat p) with
                      | Some x => set_nth (s_peers st) (N.to_nat p)
                                    {| k_prev := k_cur x;
-                                      k_cur := Some {| k_idx := idx; k_key := key; k_age := 0; k_filter := fresh_filter |} |}
+                                      k_cur := Some {| k_idx := idx; k_key := key; k_age := 0; k_filter := fresh_filter |};
+                                      k_next := None |}
                      | None => s_peers st
                      end |}, [])
+  | HandshakeUnconf p idx key =>
+      ({| s_tbl := s_tbl st;
+          s_peers := match nth_error (s_peers st) (N.to_nat p) with
+                     | Some x => set_nth (s_peers st) (N.to_nat p)
+                                   {| k_prev := None; k_cur := k_cur x;
+                                      k_next := Some {| k_idx := idx; k_key := key; k_age := 0; k_filter := sempty |} |}
+                     | None => s_peers st
+                     end |}, [])
+  | Restart =>
+      ({| s_tbl := s_tbl st;
+          s_peers := map (fun _ => {| k_prev := None; k_cur := None; k_next := None |}) (s_peers st) |}, [])
   end.
